@@ -5,7 +5,8 @@
    20 load failed/crashed on a well-formed dataset
    21 spike samples / times (+ spike_times_reordered)   22 spike templates / clusters / amplitudes
    23 channel map / positions / shanks / probes  24 template waveforms (+ column table)
-   25 whitening matrix / inverse (inverse judged in exact arithmetic: every entry of wm * wmi - I is at most 2^-30)
+   25 whitening matrix / inverse (a pre-existing inverse file: its content; a computed inverse is judged in exact
+      arithmetic: every entry of wm * wmi - I is at most 2^-30)
    26 similar templates   27 extra per-spike attributes   28 frame: pre-existing files changed, or
    files created other than the spike-cluster copy / inverse whitening matrix when missing (or wrong content)
    29 non-monotonic spike times not rejected   30 raw traces (columns permuted by the channel map)
@@ -84,9 +85,14 @@ Definition check_load (i : inp) (ob : observed) : list Z :=
                  arr_eqb (l_shanks m) (o_shanks o) && arr_eqb (l_probes m) (o_probes o) in
       let g24 := arr_eqb (l_tdata m) (o_tdata o) && oarr_eqb (l_tcols m) (o_tcols o) in
       let nc := Z.to_nat (hd 0 (a_shape (l_cmap m))) in
+      (* a PRE-EXISTING whitening_mat_inv.npy is read as it is (single precision, rounded, stale: "equal the file
+         contents", l_wmi = the file); only the inverse phylib computes itself (no such file) is judged as an inverse *)
       let g25 := arr_eqb (l_wm m) (o_wm o) && arr_eqb (l_wmi m) (o_wmi o) &&
-                 dt_eqb (a_dt (o_wmi o)) DF64 && zl_eqb (a_shape (o_wmi o)) [Z.of_nat nc; Z.of_nat nc] &&
-                 is_inverse_tol nc (-30) (l_wm m) (o_wmi o) in
+                 zl_eqb (a_shape (o_wmi o)) [Z.of_nat nc; Z.of_nat nc] &&
+                 match osrc P_wmi (i_files i) with
+                 | Some _ => true
+                 | None => dt_eqb (a_dt (o_wmi o)) DF64 && is_inverse_tol nc (-30) (l_wm m) (o_wmi o)
+                 end in
       let g26 := arr_eqb (l_similar m) (o_similar o) in
       let g27 := files_eqb (l_attrs m) (o_attrs o) in
       let g28 := match o_changed o with [] => true | _ => false end && files_eqb (l_created m) (o_new o) in
